@@ -309,7 +309,8 @@ class Domain(BasicDomain):
         name         = str(self.name)
         dim          = str(self.dim)
         interior     = self.interior.todict()
-        boundary     = self.boundary.todict()
+        # a closed multi-patch domain (every face belongs to an interface) has no boundary
+        boundary     = self.boundary.todict() if self.boundary is not None else []
         connectivity = self.connectivity.todict()
 
         dtype = self.dtype
